@@ -169,7 +169,8 @@ def toidentifier(value):
     elif isinstance(value, float):
         try:
             intvalue = int(value)
-        except OverflowError:
+        except (OverflowError, ValueError):
+            # infinity, nan
             intvalue = None
         if value == intvalue and intvalue.bit_length() <= 64:
             return "f" + toidentifier(intvalue)
@@ -184,7 +185,8 @@ def toidentifier(value):
     elif isinstance(value, numpy.floating):
         try:
             intvalue = int(value)
-        except OverflowError:
+        except (OverflowError, ValueError):
+            # infinity, nan
             intvalue = None
         if value == intvalue and intvalue.bit_length() <= value.dtype.itemsize * 8:
             return value.dtype.kind + toidentifier(intvalue)
